@@ -70,6 +70,10 @@ def stepRM (p : RMProg) (toks : List String) : RMProg × String :=
       match p.m.load ((v.toNat?).getD 0) with
       | none => (p, "err")
       | some cs => (p, s!"ok {showDump cs []}")
+    | ["snapshot", v] =>   -- a copy of the multistore loaded at a height: reads what `load` reads, changes nothing
+      match p.m.load ((v.toNat?).getD 0) with
+      | none => (p, "err")
+      | some cs => (p, s!"ok {showDump cs []}")
     | ["query", i, key, h, prove] =>
       match unhex key with
       | none => (p, "bad-op")
